@@ -782,7 +782,13 @@ impl<'a> LiveEvents<'a> {
     pub(crate) fn finish(&mut self) -> Result<(), Error> {
         self.io_error()?;
         if let Some(budget) = self.budget.take() {
-            let mut report = budget.finalize();
+            // (under per-document enforcement every document has had its ratio check when it
+            // ended: see `document_ratio`)
+            let mut report = if budget.per_document() {
+                budget.into_report()
+            } else {
+                budget.finalize()
+            };
             if let Some((breach, _)) = self.budget_breach.take() {
                 report.breached = Some(breach);
             }
@@ -920,7 +926,7 @@ impl<'a> LiveEvents<'a> {
         if self.delivered == delivered_before {
             let _ = self.next()?;
             while self.open_depth > 0 && self.next()?.is_some() {}
-            return Ok(());
+            return self.document_ratio();
         }
         if self.open_depth > 0 {
             let location = match self.peek()? {
@@ -932,6 +938,20 @@ impl<'a> LiveEvents<'a> {
                 Error::msg("the target type did not read its document to the end")
                     .with_location(location),
             );
+        }
+        self.document_ratio()
+    }
+
+    /// Under per-document enforcement the alias/anchor ratio is one of the quantities of a
+    /// document: it is looked at when the document has been read to its end, before its value is
+    /// handed out (the whole-input policy looks at it once, in `finish`).
+    fn document_ratio(&mut self) -> Result<(), Error> {
+        if let Some(budget) = &self.budget
+            && budget.per_document()
+            && let Some(breach) = budget.ratio_breach()
+        {
+            self.budget_breach = Some((breach.clone(), self.last_location));
+            return Err(budget_error(breach).with_location(self.last_location));
         }
         Ok(())
     }
